@@ -435,7 +435,6 @@ func TestC16Binary(t *testing.T) {
 	rec.Rule("production level: the `vipnode pool` binary built from the working tree is probed over HTTP and over a WebSocket with generated requests: the 10 documented names (vipnode_connect/update/peer/client/host/ping, pool_account/addNode/withdraw/status) with every arity 0..k+2 and every JSON kind per position (first an exhaustive grid: every endpoint x position x undecodable JSON kind/value over both transports, then generated combinations), and ~35 other names (other exported methods of the registered objects such as closeRemote/numRemotes, case variants, prefixes, foreign modules, random names); oracle: exactly the documented names are callable; everything else is -32601; wrong arity/kinds on a documented name is -32602; every reply carries the request id; pool_status is unchanged by refused probes; non-trivial = a non-documented name or wrong parameters; distinct by (transport, name, arity, kinds)")
 	p := startPool(t)
 	defer p.stop()
-	defer os.Remove(binPath)
 	ws, _, err := websocket.DefaultDialer.Dial("ws://"+p.addr+"/", nil)
 	if err != nil {
 		t.Fatalf("ws dial: %v", err)
